@@ -35,14 +35,15 @@ def structures(tier):
     # attribution: items A=announce (map_a record), L<k>=launch window with k images, S<d>:<n>=sample with d data records
     # and a header count fixed to n (None = symbolic 0..9)
     att = [['S1:2'], ['A', 'S1:2'], ['A', 'A', 'S1:2'], ['A', 'A', 'A', 'S1:2'], ['A', 'S1:1', 'A', 'S1:1'],
-           ['L2', 'S1:2'], ['A', 'L1', 'S1:1'], ['L2', 'A', 'S1:1'], ['S1:1', 'L2', 'S1:1=']]
+           ['L2', 'S1:2'], ['A', 'L1', 'S1:1'], ['L2', 'A', 'S1:1'], ['S1:1', 'L2', 'S1:1='], ['S1:1', 'Lc1', 'S1:1='],
+           ['A', 'S1:1', 'Lc1', 'S1:1=']]
     sel = [['S0:None'], ['S1:None'], ['S2:None'], ['A', 'S2:None']]
     if tier == 'thorough':
         att += [['A', 'S1:1', 'L2', 'S1:1='], ['S1:1', 'A', 'S1:1='], ['A', 'A', 'A', 'A', 'S1:1'], ['A', 'A', 'A', 'S1:3'], ['L2', 'L2', 'S1:1'], ['A', 'A', 'S1:1', 'A', 'S1:2'],
                 ['A', 'A', 'A', 'A', 'S1:2']]
         sel += [['A', 'A', 'S1:None']]
     for s in att + sel:
-        na = sum(1 if x == 'A' else int(x[1:]) if x[0] == 'L' else 0 for x in s)
+        na = sum(1 if x == 'A' else int(x.lstrip('Lc')) if x[0] == 'L' else 0 for x in s)
         rels = [None]
         if na >= 3:      # shard the address orderings: relation of image 0 to image 1 and of image 1 to image 2
             rels = [(a, b) for a in ('lt', 'eq', 'gt') for b in ('lt', 'eq', 'gt')]
@@ -80,13 +81,14 @@ def run(ctx, st):
             announced.append((addr, _uuid.UUID(bytes=UUIDS[ai]), len(events)))
             ai += 1
         elif it[0] == 'L':
-            k = int(it[1:])
+            cache_only = it[1] == 'c'          # launch window whose images are shared-cache records only
+            k = int(it[2:] if cache_only else it[1:])
             lid = by_name['DBG_DYLD_TIMING_LAUNCH_EXECUTABLE']
             events.append(sweep.make_event(ts, [0, 0x100000, 0, 0], TID, lid | 1)); ts += 1
             inner = []
             for j in range(k):
                 addr = ctx.int('addr%d' % ai)
-                nm = 'DYLD_uuid_map_a' if j % 2 == 0 else 'DYLD_uuid_shared_cache_a'
+                nm = 'DYLD_uuid_shared_cache_a' if (cache_only or j % 2) else 'DYLD_uuid_map_a'
                 events.append(_map_a(ctx, by_name, ts, ai, addr, nm)); ts += 1
                 inner.append((addr, _uuid.UUID(bytes=UUIDS[ai]), ai))
                 ai += 1
